@@ -100,6 +100,8 @@ structure St where
   dgTxSpec : List (List Nat) := []
   dgErr : Bool := false
   closed : Bool := false
+  /-- the peer closed the connection / it timed out (as `render_conn_err` prints it) -/
+  connErr : Option String := none
   /-- the stream tasks that exist (`w<id>` once the stream is opened / accepted, `w<id>s` after `sp`) -/
   tasks : List String := []
 
@@ -183,6 +185,8 @@ def runJob (st : St) (task : String) (job : Job) : St :=
   match job with
   | .forever op => block st task (.forever op)
   | .dgr =>
+    -- the transport reports its failure before it looks at the queue; the spec has no opinion on which error
+    if let some e := st.connErr then st.log s!"{task}.dgr=err:conn:{e}" s!"{task}.dgr=err:*" else
     match st.dgRx with
     | [] => block st task .dgr
     | d :: rest =>
@@ -326,6 +330,7 @@ def exec (st : St) (task cmd : String) : St :=
       | some w => runJob st task (.wbuf "ou" id w s!"ok:{id}")
       | none => st.log1 "conn.ou=panic"
     | "ab" =>
+      if let some e := st.connErr then st.log s!"conn.ab=err:conn:{e}" "conn.ab=err:*" else
       if st.dgErr then ({ st with closed := true }).log1 "conn.ab=err:conn:local:H3_DATAGRAM_ERROR" else
       match st.pendingBidi with
       | b :: r =>
@@ -341,6 +346,7 @@ def exec (st : St) (task cmd : String) : St :=
           | _, _ => st
       | [] => st
     | "au" =>
+      if let some e := st.connErr then st.log s!"conn.au=err:{e}" "conn.au=err:*" else
       if st.dgErr then ({ st with closed := true }).log1 "conn.au=err:local:H3_DATAGRAM_ERROR" else
       if !st.wtEnabled then block st task (.forever "au") else
       match st.pendingUni with
@@ -357,6 +363,7 @@ def exec (st : St) (task cmd : String) : St :=
           | _, _ => st
       | [] => st
     | "dgs" =>
+      if st.connErr.isSome then st.log1 "conn.dgs=err" else
       match st.connect, parseHex arg with
       | some c, some p =>
         let m := match H3.Datagram.new c p with
@@ -463,6 +470,11 @@ def step (st : St) (op : String) : St :=
       let c := ((r.drop 1).toString).toNat?.getD 0
       kick (updSend st sid (fun s => { s with stopped := some (s.stopped.getD c), sQueue := [] }))
     | none => st
+  | 'C' :: rest =>
+    match (String.ofList rest).toNat? with
+    | some c => kick { st with connErr := some (st.connErr.getD s!"remote:app:{c}") }
+    | none => st
+  | ['T'] => kick { st with connErr := some (st.connErr.getD "timeout") }
   | 'd' :: ':' :: rest => kick { st with dgRx := st.dgRx ++ [(parseHex (String.ofList rest)).getD []] }
   | 'g' :: 'w' :: rest =>
     match numPrefix (String.ofList rest) with
